@@ -39,16 +39,29 @@ def goenv():
 
 
 def ensure_overlay():
-    """generate throw-away cert pair + overlay.json (needed to build dbms & friends)"""
-    ov = os.path.join(OVERLAY_DIR, "overlay.json")
-    shutil.copyfile(os.path.join(REPO, "go.sum"), os.path.join(HARNESS, "go.sum"))
-    if os.path.exists(ov) and os.path.exists(os.path.join(OVERLAY_DIR, "server.crt")):
-        return ov
-    r = subprocess.run(["go", "run", "./cmd/gencert", OVERLAY_DIR, REPO], cwd=HARNESS,
+    """generate throw-away cert pair + overlay.json (needed to build dbms & friends).
+    Returns (overlay path, extra go flags). With VERIF_REPO set to another checkout
+    (scratch worktree for mutation testing) an alternative go.mod is used via -modfile."""
+    if REPO == "/repo":
+        odir, extra = OVERLAY_DIR, []
+        shutil.copyfile(os.path.join(REPO, "go.sum"), os.path.join(HARNESS, "go.sum"))
+    else:
+        tag = hashlib.sha1(REPO.encode()).hexdigest()[:10]
+        odir = os.path.join(VERIF, ".work", "alt-" + tag)
+        os.makedirs(odir, exist_ok=True)
+        mod = open(os.path.join(HARNESS, "go.mod")).read().replace("=> /repo", "=> " + REPO)
+        with open(os.path.join(odir, "go.mod"), "w") as f:
+            f.write(mod)
+        shutil.copyfile(os.path.join(REPO, "go.sum"), os.path.join(odir, "go.sum"))
+        extra = ["-modfile", os.path.join(odir, "go.mod")]
+    ov = os.path.join(odir, "overlay.json")
+    if os.path.exists(ov) and os.path.exists(os.path.join(odir, "server.crt")):
+        return ov, extra
+    r = subprocess.run(["go", "run"] + extra + ["./cmd/gencert", odir, REPO], cwd=HARNESS,
                        env=goenv(), capture_output=True, text=True)
     if r.returncode != 0:
         raise Infra("gencert failed: " + r.stdout + r.stderr)
-    return ov
+    return ov, extra
 
 
 class Ctx:
@@ -101,10 +114,10 @@ class Ctx:
     # ---------------------------------------------------------------- go
     def go_build(self, name, tags="verif"):
         """build harness/cmd/<name> from /repo's current working tree with hooks on"""
-        ov = ensure_overlay()
+        ov, extra = ensure_overlay()
         out = os.path.join(self.work, "bin", name)
         os.makedirs(os.path.dirname(out), exist_ok=True)
-        cmd = ["go", "build", "-tags", tags, "-overlay", ov, "-o", out, "./cmd/" + name]
+        cmd = ["go", "build"] + extra + ["-tags", tags, "-overlay", ov, "-o", out, "./cmd/" + name]
         r = subprocess.run(cmd, cwd=HARNESS, env=goenv(), capture_output=True, text=True)
         if r.returncode != 0:
             raise Infra("go build %s failed:\n%s" % (name, (r.stdout + r.stderr)[-6000:]))
@@ -185,6 +198,7 @@ class Ctx:
                             (expect_violation, module, cfg, res["violated"], out[-2000:]))
             res["expected_violation"] = expect_violation
             self.cov["tlc_runs"].append(res)
+            self.log("TLC %s/%s: deviation config violates %s as expected (anti-vacuity)" % (module, cfg, expect_violation))
             return res
         if viol:
             with open(os.path.join(self.work, "spec-counterexample.txt"), "w") as f:
@@ -225,6 +239,10 @@ class Ctx:
         nlines = sum(1 for _ in open(tracefile))
         res = {"module": module, "cfg": cfg, "rc": rc, "events": nlines,
                "wall_s": round(time.time() - t, 2)}
+        m = re.findall(r"(\d+) states generated, (\d+) distinct states found", out)
+        if m:
+            res["generated"], res["distinct"] = map(int, m[-1])
+            self.cov["trace_validation_states"] = self.cov.get("trace_validation_states", 0) + res["distinct"]
         rej = re.search(r'"REJECTED",\s*(\d+)', out)
         inv = re.search(r"Error: (Invariant (\S+) is violated|Action property (\S+) is violated)", out)
         if "TRACE-ACCEPTED" in out and not inv and rc == 0:
